@@ -1,6 +1,7 @@
 package core
 
 import (
+	"strings"
 	"go/token"
 	"go/types"
 
@@ -614,4 +615,77 @@ func canonBase(v ssa.Value, depth int) ssa.Value {
 // exit (panic): no further *returning* bypass exists after the guard.
 func GuardedExactlyByAny(target ssa.Instruction, pred func(Fact) bool) bool {
 	return GuardedBy(target, pred)
+}
+
+// XOrigins is Origins that also looks through helpers of the analysed module:
+// where an origin is the result of a static call of a module function with a
+// body, it is replaced by the origins of what that function returns in that
+// position (at each of its returns; followed to depth 3, recursion cut). The
+// roots found inside a helper are values of the helper. Use it where a rule
+// asks "where does this value come from" and an extracted helper must not hide
+// the answer.
+func XOrigins(v ssa.Value) []ssa.Value {
+	var out []ssa.Value
+	seen := map[ssa.Value]bool{}
+	active := map[*ssa.Function]bool{}
+	var rec func(v ssa.Value, depth int)
+	rec = func(v ssa.Value, depth int) {
+		for _, o := range Origins(v) {
+			if seen[o] {
+				continue
+			}
+			seen[o] = true
+			call, idx, ok := CallResult(o)
+			if ok && depth < 3 {
+				if callee := call.Call.StaticCallee(); callee != nil && callee.Blocks != nil && callee.Pkg != nil &&
+					strings.HasPrefix(callee.Pkg.Pkg.Path(), ModulePath) && !active[callee] && callee.Parent() == nil {
+					rets := Returns(callee)
+					if len(rets) > 0 {
+						active[callee] = true
+						for _, r := range rets {
+							if idx < len(r.Results) {
+								rec(r.Results[idx], depth+1)
+							}
+						}
+						active[callee] = false
+						continue
+					}
+				}
+			}
+			out = append(out, o)
+		}
+	}
+	rec(v, 0)
+	return out
+}
+
+// HelperCall is a static call, in some function, of a module function that
+// has a body; Bind maps the helper's parameters to the call's arguments.
+type HelperCall struct {
+	Call   *ssa.Call
+	Callee *ssa.Function
+	Bind   map[ssa.Value]ssa.Value
+}
+
+// HelperCallsOf lists the helper calls in fn (not in its literals).
+func HelperCallsOf(fn *ssa.Function) []HelperCall {
+	var out []HelperCall
+	Instrs(fn, func(in ssa.Instruction) {
+		call, ok := in.(*ssa.Call)
+		if !ok {
+			return
+		}
+		callee := call.Call.StaticCallee()
+		if callee == nil || callee.Blocks == nil || callee.Pkg == nil || callee.Parent() != nil || !strings.HasPrefix(callee.Pkg.Pkg.Path(), ModulePath) {
+			return
+		}
+		hc := HelperCall{Call: call, Callee: callee, Bind: map[ssa.Value]ssa.Value{}}
+		for i, p := range callee.Params {
+			if i < len(call.Call.Args) {
+				hc.Bind[p] = call.Call.Args[i]
+			}
+		}
+		out = append(out, hc)
+	})
+	return out
 }
